@@ -40,7 +40,7 @@ def run(ctx):
         okw = c09.write_guard(r)
         c09.exits(r, okw)
         c09.failure_closes(r, "R18.6")
-        c10.cap(r)
+        c10._either(r, "R10.1", c10.cap, c10.cap_inlined)
         # the one client-dependent error exit, Overflow of the in-flight counter, is out of reach only while the counter is wide
         c09.counter_width(r, "R18.6")
     ctx.guarded("R18.6", "shared", shared)
